@@ -862,14 +862,84 @@ def check_misc(prog, rep, m):
     ic = m.funcs.get('_is_close')
     if ic is None:
         raise AnalysisIncomplete('_is_close not found')
-    ifs = [n for n in ic.node.body if isinstance(n, ast.If)]
-    ok = len(ifs) == 1 and T(ifs[0].test) == 'isinstance(reference,nb.types.Integer)andisinstance(value,nb.types.Integer)' and \
-        T(ifs[0].body[0]) in ('returnlambdareference,value:value==reference', 'returnlambdareference,value:reference==value')
-    rep.add('G6', ic, entry, 'integer rasters are matched with ==', ic.node.lineno, ok,
-            'equal-value regions of integer rasters need exact equality (an equivalence relation)')
-    tol = [n for n in ast.walk(ic.node) if isinstance(n, ast.Lambda) and 'abs(' in T(n)]
-    ok = len(tol) == 1 and T(tol[0].body) == 'abs(value-reference)<=atol+rtol*abs(reference)'
-    rep.add('G6', ic, entry, 'float tolerance |v - r| <= atol + rtol*|r|', ic.node.lineno, ok, '')
+    # the matcher generator: on each path through its body it returns a lambda (or nested function); the path on which
+    # both arguments are integer types must return exact equality, the other one a predicate that is reflexive and rejects
+    # clearly different values.  The returned predicates are evaluated, not compared as text.
+    from fractions import Fraction as Fr
+    from ..astutil import body_paths
+    from ..kutil import CannotEvaluate, eval_cond_full
+    from ..sym import Sym
+
+    def integer_test(t_, taken):
+        """does this decision say "both arguments are integer types"?  True / False / None (another test)"""
+        txt = T(t_)
+        if 'Integer' in txt and 'isinstance' in txt:
+            if isinstance(t_, ast.UnaryOp) and isinstance(t_.op, ast.Not):
+                return not taken
+            return taken
+        return None
+
+    def predicate(ret, env_stmts):
+        """condition of the lambda returned by `ret`, over its two parameters, with the local constants in scope"""
+        lam = ret.value
+        if isinstance(lam, ast.Name):
+            defs = [s_ for s_ in env_stmts if isinstance(s_, ast.Assign) and T(s_.targets[0]) == lam.id and isinstance(s_.value, ast.Lambda)]
+            lam = defs[-1].value if defs else None
+        if not isinstance(lam, ast.Lambda) or len(lam.args.args) != 2:
+            return None
+        a_, b_ = lam.args.args[0].arg, lam.args.args[1].arg
+        sp = Spec(prog, {a_: Rat.sym('A'), b_: Rat.sym('B')}, m)
+        for s_ in env_stmts:
+            if isinstance(s_, ast.Assign) and isinstance(s_.targets[0], ast.Name) and not isinstance(s_.value, ast.Lambda):
+                try:
+                    sp.it.stmt(s_)
+                except AnalysisIncomplete:
+                    pass
+        return sp.it.cond_of(sp.it.ev(lam.body), lam.body)
+    okint = okflt = None
+    whyi = whyf = 'returned predicate not found'
+    try:
+        for p in body_paths(ic.node.body):
+            rets = [s_ for s_ in p.stmts if isinstance(s_, ast.Return)]
+            if not rets:
+                continue
+            kinds = [integer_test(t_, tk) for t_, tk in p.conds]
+            pred = predicate(rets[-1], p.stmts)
+            if pred is None:
+                continue
+
+            def holds(x, y):
+                return eval_cond_full(pred, {Sym('A'): Fr(x), Sym('B'): Fr(y)})
+            if True in kinds:
+                pairs = [(5, 5, True), (0, 0, True), (-7, -7, True), (100000, 100001, False), (100001, 100000, False), (0, 1, False),
+                         (2**40, 2**40 + 1, False)]
+                bad = [(x, y) for x, y, w_ in pairs if holds(x, y) != w_]
+                okint, whyi = not bad, 'wrong for %s' % bad if bad else 'exact on %d pairs' % len(pairs)
+            elif False in kinds or not kinds:
+                pairs = [(5, 5, True), (0, 0, True), (-3, -3, True), (1, 2, False), (2, 1, False), (-3, 3, False), (0, 1, False)]
+                bad = [(x, y) for x, y, w_ in pairs if holds(x, y) != w_]
+                okflt, whyf = not bad, 'wrong for %s' % bad if bad else 'reflexive and separating on %d pairs' % len(pairs)
+        if okint is None and okflt is None and len(ic.params) >= 2:
+            # not a generator of matchers but one matcher for every dtype: it is the integer matcher too
+            ki = interpret(prog, ic, strict=False)
+            a_, b_ = Sym(ic.params[0]), Sym(ic.params[1])
+
+            def holds1(x, y):
+                for v, g in ki.returns:
+                    if all(eval_cond_full(z, {a_: Fr(x), b_: Fr(y)}) for z in g):
+                        if isinstance(v, tuple) and v and v[0] in ('cmp', 'and', 'or', 'not', 'truth', 'const'):
+                            return eval_cond_full(v, {a_: Fr(x), b_: Fr(y)})
+                        raise CannotEvaluate('returned value is not a condition')
+                raise CannotEvaluate('no return taken')
+            pairs = [(5, 5, True), (0, 0, True), (100000, 100001, False), (100001, 100000, False), (0, 1, False), (2**40, 2**40 + 1, False)]
+            bad = [(x, y) for x, y, w_ in pairs if holds1(x, y) != w_]
+            okint, whyi = not bad, ('one matcher for all dtypes; wrong for integer pairs %s' % bad) if bad else 'exact'
+            okflt, whyf = all(holds1(x, x) for x in (5, 0, -3)) and not holds1(1, 2), 'one matcher for all dtypes'
+    except (ValueError, CannotEvaluate, AnalysisIncomplete) as e:
+        whyi = whyf = str(e)
+    rep.add('G6', ic, entry, 'integer rasters are matched with ==', ic.node.lineno, okint,
+            'equal-value regions of integer rasters need exact equality (an equivalence relation); ' + whyi)
+    rep.add('G6', ic, entry, 'float matcher: a value matches itself, clearly different values do not', ic.node.lineno, okflt, whyf)
     # G7 on wrapper terms: what the scan receives, case by case (single-column raster or not, mask given or not)
     from ..wterm import WT, eval_cond, key as tkey, resolve, show as tshow
     pub = m.funcs.get('polygonize')
